@@ -98,6 +98,9 @@ func (e *env) pickClass(honestBias int) int {
 		}
 		return sAlphabet
 	}
+	if e.w.FormerAlphabet != nil && e.b.Rng.IntN(2) == 0 {
+		return sFormer
+	}
 	return runner.Pick(e.b.Rng, []int{sMajority, sMember, sStranger, sNobody})
 }
 
@@ -178,7 +181,11 @@ func (e *env) opLock(hostile bool) *op {
 	bal := e.modelBalance(from)
 	amt := e.pickAmount(bal, hostile)
 	until := e.epoch + runner.Pick(e.b.Rng, []int64{-1, 0, 1, 1, 2, 3})
-	if until <= 0 {
+	if e.b.Rng.IntN(12) == 0 {
+		until = -1 - int64(e.b.Rng.IntN(5)) // long past: the first tick releases it (seeded change C09-7)
+		e.b.Hit("lock-with-a-negative-until")
+	}
+	if until == 0 {
 		until = 1 // until = 0 is the contract's "not a lock account" sentinel; not in the judged scope
 	}
 	if outer != nil && e.b.Rng.IntN(2) == 0 {
